@@ -9,12 +9,15 @@ Transcribes `/repo/src/expression_engine/parser.rs`:
 
 * The parser stack (`Vec<ExpressionParserItem>`) is a `List Item` in the same order (push = append).
 * `stack_to_expression` picks, among the operators on the stack, the one with the *smallest*
-  priority number, and among equal ones the *last* (`prio <= best_idx_prio`), except for `.`
-  (`2 < best_idx_prio`: the first).  It folds that operator with its two neighbours and recurses.
-  So equal-priority binary operators group to the RIGHT in the code as it is; the model does the
-  same (finding P2 of DESIGN §5).
-* `panic!("Internal error")` is the outcome `PRes.panic`; the never-ending token stream of an
-  operator character at the very end of the text (see `ExprLexer.readOperator`) is `PRes.livelock`.
+  priority number; among equal ones the *first* for the binary operators and the *last* for `!`,
+  `=` and `?=` (`prio < best_idx_prio || (right_to_left && prio == best_idx_prio)`: `better`),
+  and the first `.` (`2 < best_idx_prio`).  It folds that operator with its two neighbours and
+  recurses.  So equal-priority binary operators group to the LEFT, assignments to the right
+  (repaired; they all grouped to the right: finding P2 of DESIGN §5).
+* `panic!("Internal error")` is the outcome `PRes.panic`.  `PRes.livelock` is the outcome of the
+  parser loop when a token is delivered without the input getting shorter and the loop goes on
+  (an operator): `Rfsm.Proofs.ExprLivelock` proves it unreachable since `read_operator` no longer
+  un-reads at the end of the text.
 * Recursion is structural on `fuel`; `Rfsm.Proofs.ExprFuel` proves that the fuel `parse` passes
   is sufficient (`outOfFuel` is never the result).
 
@@ -87,6 +90,12 @@ def prio : Op → Nat
   | .equal => 10 | .notEqual => 10
   | .assign => 16 | .assignUndefined => 16
 
+/-- `right_to_left` of `stack_to_expression`: `!` and the assignments -/
+def rightToLeft (o : Op) : Bool := o == .not || o == .assign || o == .assignUndefined
+
+/-- `prio < best_idx_prio || (right_to_left && prio == best_idx_prio)` -/
+def better (o : Op) (bp : Nat) : Bool := decide (prio o < bp) || (rightToLeft o && prio o == bp)
+
 /-- first `while` loop of `stack_to_expression`: identifiers become variables, the best operator
 is located.  `none` = `panic!("Internal error")`. -/
 def scan : List Item → Nat → Nat → Nat → Option (List Item × Nat × Nat)
@@ -102,7 +111,7 @@ def scan : List Item → Nat → Nat → Nat → Option (List Item × Nat × Nat
         (scan rest (si + 1) bi' bp').map fun (r, i, p) => (.tok (.separator c) :: r, i, p)
       else none
     | .tok (.operator o) =>
-      let (bi', bp') := if prio o ≤ bp then (si, prio o) else (bi, bp)
+      let (bi', bp') := if better o bp then (si, prio o) else (bi, bp)
       (scan rest (si + 1) bi' bp').map fun (r, i, p) => (.tok (.operator o) :: r, i, p)
     | .tok _ => none
 
